@@ -17,3 +17,5 @@ func RescaleKind(p *curve.EdwardsPoint, rng *rand.Rand, kind int) *curve.Edwards
 }
 func RistrettoFromEdwards(p *curve.EdwardsPoint) *curve.RistrettoPoint { return nil }
 func EdwardsFromRistretto(p *curve.RistrettoPoint) *curve.EdwardsPoint { return nil }
+
+func Coherent(p *curve.EdwardsPoint) string { return "" }
